@@ -143,6 +143,11 @@ impl ClientSession {
         self.inner.is_enabled()
     }
 
+    /// start the session's transaction ids at `value` (so that a short run can cross the 16-bit wrap)
+    pub fn set_next_tx_id(&mut self, value: u16) {
+        self.inner.set_next_tx_id(value)
+    }
+
     /// true => enabled, false => shutdown
     pub async fn wait_for_enabled(&mut self) -> bool {
         self.inner.wait_for_enabled().await.is_ok()
